@@ -87,8 +87,12 @@ fn check_diagnostics(diags: &analyzer::Diagnostics, sources: &ast::SourceDatabas
 }
 
 pub fn run_text(text: &str) -> Run {
+    run_text_named(text, "stdin")
+}
+
+pub fn run_text_named(text: &str, name: &str) -> Run {
     let mut sources = ast::SourceDatabase::new();
-    let parsed = guarded(|| parser::parse_inline(&mut sources, "stdin", text.to_string()));
+    let parsed = guarded(|| parser::parse_inline(&mut sources, name, text.to_string()));
     let file = match parsed {
         Err(p) => return Run { outcome: Outcome::ParsePanic(p), sources, parsed: None, analyzed: None },
         Ok(Err(d)) => {
@@ -266,7 +270,7 @@ pub fn generate(b: Backend, run: &Run, java_dir: Option<&std::path::Path>) -> Re
         Backend::Json => guarded(|| backends::json::generate(parsed).map_err(|e| e.to_string()))?,
         Backend::Rust => guarded(|| backends::rust::generate(sources, analyzed, &[])),
         Backend::Python => guarded(|| backends::python::generate(sources, analyzed, None, &[])),
-        Backend::Cxx => guarded(|| backends::cxx::generate(sources, analyzed, Some("ns"), &[], &[], &[])),
+        Backend::Cxx => guarded(|| backends::cxx::generate(sources, analyzed, None, &[], &[], &[])),
         Backend::Java => {
             let dir = java_dir.expect("java needs an output dir");
             let _ = std::fs::remove_dir_all(dir);
